@@ -1,7 +1,11 @@
 /-
-  Props/C02 — property theorems over M-Core (see DESIGN.md §4 C02).
+  Props/C02 — states finalize only after the dispute period, in order, irreversibly, unstarved.
+  Property theorems over M-Core, for every parameter value (every dispute period from 0 up), every
+  operation sequence (several updates per hub block, several rollapps, forks, kicks, obsolete marking)
+  and every failure oracle in every `end_` op.  The invariant itself (`FinInv`, `RFin`) and the
+  step lemmas live in `Lemmas/CoreFin*.lean`.
 -/
-import DymVerif.Model.Core
+import DymVerif.Lemmas.CoreFinIso
 namespace DymVerif.C02
 open DymVerif DymVerif.Core
 
@@ -13,5 +17,214 @@ theorem reject_unchanged (s : St) (o : Op) (e : Err) (h : (step s o).2 = some e)
   cases h' : apply s o with
   | ok s' => simp [h'] at h
   | error e' => simp [h']
+
+/-- **The finalization invariant holds in every reachable state**: unique rollapp ids; the queue is
+    strictly sorted by (creation height, rollapp), its entries are non-empty, not from the future and
+    belong to existing rollapps; and for every rollapp `RFin` (see the clauses below). -/
+theorem finalization_invariant (p : Params) (ops : List Op) : FinInv (run p ops) := run_fin p ops
+
+/-- **Never early** (ghost form): every finalized state info of every reachable state was finalized
+    at a hub height `finalizedAt ≥ creationHeight + dispute`, for every dispute period `p.dispute ≥ 0`.
+    (`finalizedAt` is the model's ghost record of the hub height of the `EndBlock` that finalized the
+    state; `finalized_only_by_end_block` / `finalized_at_block_end` below are the ghost-free
+    transition forms.) -/
+theorem finalized_not_early (p : Params) (ops : List Op) (r : Rollapp) (hr : r ∈ (run p ops).ras)
+    (st : SInfo) (hst : st ∈ r.states) (hf : st.finalized = true) :
+    st.creationHeight + p.dispute ≤ st.finalizedAt := by
+  have := ((run_fin p ops).ras r hr).notEarly st hst hf
+  rw [run_p] at this
+  exact this
+
+/-- **Only at the end of a block, after the dispute period** (transition form): if a state that is
+    unfinalized before an `end_` op (with any failure oracle) is finalized after it, then the block
+    height is at least its creation height plus the dispute period, and nothing but the finalization
+    flag (and the ghost height, set to this block's height) changed in it. -/
+theorem finalized_only_at_block_end (p : Params) (ops : List Op) (fails : List (Nat × Nat))
+    (r r' : Rollapp) (hr : r ∈ (run p ops).ras) (i : Nat) (st st' : SInfo)
+    (hst : r.states[i]? = some st) (hnf : st.finalized = false)
+    (hg' : getRa (run p (ops ++ [.end_ fails])) r.id = some r') (hst' : r'.states[i]? = some st')
+    (hf : st'.finalized = true) :
+    st.creationHeight + p.dispute ≤ (run p ops).h ∧
+      st' = { st with finalized := true, finalizedAt := (run p ops).h } := by
+  have hrun : run p (ops ++ [.end_ fails]) = endBlock (run p ops) fails := by
+    rw [run_append]; rfl
+  rw [hrun] at hg'
+  have := endBlock_newly fails (run_fin p ops) hr hst hnf hg' hst' hf
+  rw [run_p] at this
+  exact this
+
+/-- **Only the end of a block finalizes**: after any accepted op other than `end_` (updates, fraud
+    proposals, kicks, rotations, obsolete marking, `begin_` …) every finalized state info of the
+    post-state was already finalized in the pre-state — same rollapp, same index, same creator, heights,
+    descriptors, creation height and finalization height. -/
+theorem finalized_only_by_end_block (p : Params) (ops : List Op) (o : Op) (s' : St)
+    (h : apply (run p ops) o = .ok s') (hne : ∀ f, o ≠ .end_ f)
+    (r' : Rollapp) (hr' : r' ∈ s'.ras) (i : Nat) (st' : SInfo) (hst' : r'.states[i]? = some st')
+    (hf : st'.finalized = true) :
+    ∃ r ∈ (run p ops).ras, r.id = r'.id ∧ ∃ st, r.states[i]? = some st ∧ st.finalized = true ∧
+      st.creator = st'.creator ∧ st.start = st'.start ∧ st.num = st'.num ∧ st.bds = st'.bds ∧
+      st.creationHeight = st'.creationHeight ∧ st.finalizedAt = st'.finalizedAt := by
+  obtain ⟨r, hr, hid, st, hst, hk⟩ := apply_back h hne (run_inv p ops).1 (run_fin p ops) r' hr' i st' hst' hf
+  have f := sKey_fields hk
+  exact ⟨r, hr, hid, st, hst, by rw [f.2.2.2.2.1]; exact hf, f.1, f.2.1, f.2.2.1, f.2.2.2.2.2.1, f.2.2.2.1, f.2.2.2.2.2.2.2⟩
+
+/-- **… and only after the dispute period**: every finalized state info after an `end_` op (any
+    oracle) either was finalized before and is untouched, or was unfinalized with
+    `creationHeight + dispute ≤ block height` and differs only in the flag (and the ghost height). -/
+theorem finalized_at_block_end (p : Params) (ops : List Op) (fails : List (Nat × Nat))
+    (r' : Rollapp) (hg' : getRa (run p (ops ++ [.end_ fails])) r'.id = some r')
+    (i : Nat) (st' : SInfo) (hst' : r'.states[i]? = some st') (hf : st'.finalized = true) :
+    ∃ r ∈ (run p ops).ras, r.id = r'.id ∧ ∃ st, r.states[i]? = some st ∧
+      ((st.finalized = true ∧ st' = st) ∨
+       (st.finalized = false ∧ st.creationHeight + p.dispute ≤ (run p ops).h ∧
+         st' = { st with finalized := true, finalizedAt := (run p ops).h })) := by
+  have hrun : run p (ops ++ [.end_ fails]) = endBlock (run p ops) fails := by
+    rw [run_append]; rfl
+  rw [hrun] at hg'
+  have := endBlock_back fails (run_fin p ops) hg' hst' hf
+  rw [run_p] at this
+  exact this
+
+/-- **In order**: in every reachable state the finalized state infos of a rollapp are exactly those
+    with (1-based) index ≤ the latest finalized index — a state is finalized only if every earlier
+    state of the rollapp is. -/
+theorem finalized_prefix (p : Params) (ops : List Op) (r : Rollapp) (hr : r ∈ (run p ops).ras) :
+    r.lastFin ≤ r.states.length ∧
+    ∀ (i : Nat) (st : SInfo), r.states[i]? = some st → (st.finalized = true ↔ i + 1 ≤ r.lastFin) := by
+  have h := (run_fin p ops).ras r hr
+  exact ⟨h.le, fun i st hst => by rw [h.pre i st hst]; omega⟩
+
+/-- corollary: a finalized state has all its predecessors finalized -/
+theorem finalized_after_all_earlier (p : Params) (ops : List Op) (r : Rollapp) (hr : r ∈ (run p ops).ras)
+    (i j : Nat) (st sj : SInfo) (hst : r.states[i]? = some st) (hf : st.finalized = true)
+    (hj : j ≤ i) (hsj : r.states[j]? = some sj) : sj.finalized = true := by
+  have h := (finalized_prefix p ops r hr).2
+  exact (h j sj hsj).2 (by have := (h i st hst).1 hf; omega)
+
+/-- **Queue integrity**: in every reachable state — whatever forks, fault oracles and interleavings
+    of rollapps produced it — the queued indices of each rollapp, read in queue order, are exactly
+    `lastFin+1, …, n` (nothing lost, duplicated or reordered); the queue is strictly sorted by
+    (creation height, rollapp) and every queued index sits in the entry of its own creation height. -/
+theorem queue_integrity (p : Params) (ops : List Op) (r : Rollapp) (hr : r ∈ (run p ops).ras) :
+    flat (run p ops).queue r.id = List.range' (r.lastFin + 1) (r.states.length - r.lastFin) ∧
+    QSorted (run p ops).queue ∧
+    (∀ e ∈ (run p ops).queue, e.idx ≠ [] ∧ e.ch ≤ (run p ops).h) ∧
+    (∀ e ∈ (run p ops).queue, e.ra = r.id → ∀ i ∈ e.idx, ∃ st, r.states[i - 1]? = some st ∧ st.creationHeight = e.ch) := by
+  have hi := run_fin p ops
+  have h := hi.ras r hr
+  exact ⟨h.flat_eq, hi.sorted, fun e he => ⟨(hi.ent e he).2, (hi.ent e he).1⟩, h.ch⟩
+
+/-- **Irreversible, one step**: for every accepted op (fraud proposals, kicks, obsolete marking, updates,
+    blocks included), a state info that is finalized before the op is still there after it, at the
+    same index of the same rollapp, with the same creator, start height, number of blocks, block
+    descriptors, creation height, status (finalized) and finalization height.  Only `next`
+    (`NextProposer`, rewritten by proposer rotation / forks on the latest state) may differ. -/
+theorem finalized_frozen_step (p : Params) (ops : List Op) (o : Op) (s' : St) (h : apply (run p ops) o = .ok s')
+    (r : Rollapp) (hr : r ∈ (run p ops).ras) (i : Nat) (st : SInfo) (hst : r.states[i]? = some st)
+    (hf : st.finalized = true) :
+    ∃ r' st', getRa s' r.id = some r' ∧ r'.states[i]? = some st' ∧
+      st'.creator = st.creator ∧ st'.start = st.start ∧ st'.num = st.num ∧ st'.bds = st.bds ∧
+      st'.creationHeight = st.creationHeight ∧ st'.finalized = true ∧ st'.finalizedAt = st.finalizedAt := by
+  obtain ⟨_, hi', hev, _⟩ := apply_good h (run_inv p ops).1 (run_fin p ops)
+  obtain ⟨r', st', hg, hs, hk⟩ := hev.get hi'.nodup hr hst hf
+  have f := sKey_fields hk
+  exact ⟨r', st', hg, hs, f.1, f.2.1, f.2.2.1, f.2.2.2.2.2.1, f.2.2.2.1, by rw [f.2.2.2.2.1]; exact hf, f.2.2.2.2.2.2.2⟩
+
+/-- **Irreversible, forever**: the same for every continuation `more` of the history. -/
+theorem finalized_frozen (p : Params) (ops more : List Op)
+    (r : Rollapp) (hr : r ∈ (run p ops).ras) (i : Nat) (st : SInfo) (hst : r.states[i]? = some st)
+    (hf : st.finalized = true) :
+    ∃ r' st', getRa (run p (ops ++ more)) r.id = some r' ∧ r'.states[i]? = some st' ∧
+      st'.creator = st.creator ∧ st'.start = st.start ∧ st'.num = st.num ∧ st'.bds = st.bds ∧
+      st'.creationHeight = st.creationHeight ∧ st'.finalized = true ∧ st'.finalizedAt = st.finalizedAt := by
+  obtain ⟨r', st', hg, hs, hk⟩ := (run_evolves p ops more).get (run_fin p (ops ++ more)).nodup hr hst hf
+  have f := sKey_fields hk
+  exact ⟨r', st', hg, hs, f.1, f.2.1, f.2.2.1, f.2.2.2.2.2.1, f.2.2.2.1, by rw [f.2.2.2.2.1]; exact hf, f.2.2.2.2.2.2.2⟩
+
+/-- **Unstarved**: at the end of a block of height `H` (any reachable pre-state, any oracle), every
+    pending state whose dispute period has elapsed (`creationHeight + dispute ≤ H`) is finalized at
+    this block — provided the oracle fails none of that rollapp's pending indices up to its own
+    (all of which are due as well, being queued no later).  Failures of other rollapps, and failures
+    of later indices of the same rollapp, do not matter. -/
+theorem finalize_complete (p : Params) (ops : List Op) (fails : List (Nat × Nat))
+    (r : Rollapp) (hr : r ∈ (run p ops).ras) (i : Nat) (st : SInfo) (hst : r.states[i]? = some st)
+    (hnf : st.finalized = false) (hdue : st.creationHeight + p.dispute ≤ (run p ops).h)
+    (hok : ∀ j, r.lastFin < j → j ≤ i + 1 → (r.id, j) ∉ fails) :
+    ∃ r', getRa (run p (ops ++ [.end_ fails])) r.id = some r' ∧
+      r'.states[i]? = some { st with finalized := true, finalizedAt := (run p ops).h } := by
+  have hrun : run p (ops ++ [.end_ fails]) = endBlock (run p ops) fails := by
+    rw [run_append]; rfl
+  rw [hrun]
+  exact endBlock_complete fails (run_fin p ops) hr hst hnf (by rw [run_p]; exact hdue) hok
+
+/-- **Failure isolation**: what an `EndBlock` does to a rollapp's record (all its state infos, the
+    latest finalized index and every other field) depends only on the oracle restricted to that
+    rollapp's due indices: two oracles that agree there give the same record, whatever they do to other
+    rollapps — for every reachable pre-state. -/
+theorem failure_isolated_gen (p : Params) (ops : List Op) (f1 f2 : List (Nat × Nat)) (id : Nat)
+    (hag : ∀ e ∈ (run p ops).queue, e.ra = id → e.ch + p.dispute ≤ (run p ops).h →
+      ∀ j ∈ e.idx, f1.contains (id, j) = f2.contains (id, j)) :
+    getRa (run p (ops ++ [.end_ f1])) id = getRa (run p (ops ++ [.end_ f2])) id := by
+  have hrun : ∀ f, run p (ops ++ [.end_ f]) = endBlock (run p ops) f := by
+    intro f; rw [run_append]; rfl
+  rw [hrun, hrun]
+  apply endBlock_iso_full _ (run_fin p ops).nodup
+  rw [run_p]; exact hag
+
+/-- in particular: for a rollapp none of whose due indices is failed, the record after the block
+    equals the record under the empty oracle (no failure anywhere) -/
+theorem failure_isolated (p : Params) (ops : List Op) (fails : List (Nat × Nat)) (id : Nat)
+    (hno : ∀ e ∈ (run p ops).queue, e.ra = id → e.ch + p.dispute ≤ (run p ops).h → ∀ j ∈ e.idx, (id, j) ∉ fails) :
+    getRa (run p (ops ++ [.end_ fails])) id = getRa (run p (ops ++ [.end_ []])) id := by
+  apply failure_isolated_gen
+  intro e he hra hdue j hj
+  have := hno e he hra hdue j hj
+  have h1 : fails.contains (id, j) = false := by simpa using this
+  rw [h1]; rfl
+
+-- ---------------------------------------------------------------- non-vacuity: concrete histories
+
+def exParams (d : Nat) : Params where
+  dispute := d
+  lsBlocks := 50
+  lsInterval := 2
+  lsMul := ⟨0⟩
+  lsAbs := 0
+  dishonorSU := 1
+  dishonorL := 1
+  kickThr := 2
+  noticePeriod := 10
+def exBds (start n : Nat) : List BD := (List.range n).map fun i => { height := start + i, hasTs := true, drs := 1, rootOk := true }
+def upd (ra sender start num : Nat) : Op :=
+  .update { ra := ra, sender := sender, start := start, num := num, rev := 0, last := false, bds := exBds start num }
+/-- two rollapps; rollapp 0 gets updates at hub heights 1, 1, 2; rollapp 1 at height 1 -/
+def exOps : List Op := [.createRollapp 0 9 10, .createRollapp 1 9 10, .fund 1 100, .fund 2 100,
+  .createSeq 1 0 10 true, .createSeq 2 1 10 true,
+  upd 0 1 1 3, upd 0 1 4 2, upd 1 2 1 5, .begin_ 1, .end_ [], upd 0 1 6 1, .begin_ 1]
+
+def view (s : St) := s.ras.map fun r => (r.id, r.lastFin, r.states.map fun st => (st.finalized, st.creationHeight, st.finalizedAt))
+def qview (s : St) := s.queue.map fun e => (e.ch, e.ra, e.idx)
+
+-- dispute period 2, at height 3: nothing finalized yet, all three + one indices queued in order
+example : view (run (exParams 2) exOps) = [(0, 0, [(false, 1, 0), (false, 1, 0), (false, 2, 0)]), (1, 0, [(false, 1, 0)])] := by decide
+example : qview (run (exParams 2) exOps) = [(1, 0, [1, 2]), (1, 1, [1]), (2, 0, [3])] := by decide
+-- end of block 3 = 1 + 2: exactly the states created at height 1 finalize, with finalizedAt = 3
+example : view (run (exParams 2) (exOps ++ [.end_ []])) =
+    [(0, 2, [(true, 1, 3), (true, 1, 3), (false, 2, 0)]), (1, 1, [(true, 1, 3)])] := by decide
+-- a failure injected at index 2 of rollapp 0: index 1 finalizes, 2 stays queued (entry rewritten), rollapp 1 unaffected
+example : view (run (exParams 2) (exOps ++ [.end_ [(0, 2)]])) =
+    [(0, 1, [(true, 1, 3), (false, 1, 0), (false, 2, 0)]), (1, 1, [(true, 1, 3)])] := by decide
+example : qview (run (exParams 2) (exOps ++ [.end_ [(0, 2)]])) = [(1, 0, [2]), (2, 0, [3])] := by decide
+-- retried at the next block, together with the state that became due meanwhile
+example : view (run (exParams 2) (exOps ++ [.end_ [(0, 2)], .begin_ 1, .end_ []])) =
+    [(0, 3, [(true, 1, 3), (true, 1, 4), (true, 2, 4)]), (1, 1, [(true, 1, 3)])] := by decide
+-- dispute period 0: finalized at the end of the creation block
+example : view (run (exParams 0) [.createRollapp 0 9 10, .fund 1 100, .createSeq 1 0 10 true, upd 0 1 1 3, .end_ []]) =
+    [(0, 1, [(true, 1, 1)])] := by decide
+-- a fraud proposal after finalization: the finalized prefix is kept, the pending suffix is dropped
+example : view (run (exParams 2) (exOps ++ [.end_ [], .bridge 0 1, .fraud true 0 6 0 none none])) =
+    [(0, 2, [(true, 1, 3), (true, 1, 3)]), (1, 1, [(true, 1, 3)])] := by decide
+-- a fraud proposal on a finalized height is refused
+example : (step (run (exParams 2) (exOps ++ [.end_ [], .bridge 0 1])) (.fraud true 0 5 0 none none)).2 = some Err.finalizedHeight := by decide
 
 end DymVerif.C02
